@@ -129,6 +129,11 @@ func newWorld(seed int64, idx int) (*world, error) {
 	return w, nil
 }
 
+// reseed gives a world that shares its accounts and numbers with others a random stream of its own.
+func (w *world) reseed(seed int64, idx int) {
+	w.rng = mrand.New(mrand.NewSource(int64(binary.BigEndian.Uint64(derive(seed, idx, "rng2")[:8]))))
+}
+
 func (w *world) key(name string) (*ecdsa.PrivateKey, error) {
 	if k, ok := w.keys[name]; ok {
 		return k, nil
